@@ -519,11 +519,11 @@ class Checker:
             step = new
         if not stable:
             # the 5th refinement may have reached the fixed point without it being re-confirmed: one verification
-            # round decides whether the result is the principal type (judged) or an unfinished deduction (unspecified)
+            # round decides whether the result is the principal type or an unfinished deduction (rejected)
             self.vars = [v for v in self.vars if v['level'] > 0]
             self.bind(kids[0], step)
             if self.typification(kids[step_idx], i) != step:
-                raise Unspec('recursion type does not stabilise within the deduction depth')
+                raise TypeErr('typesNotEqual', kids[step_idx])      # the deduction did not reach a fixed point: no principal type
         if full:
             self.expect_logic(kids[2], i)
         self.end_scope()
